@@ -1,0 +1,87 @@
+//! Invariants of the core state (verification hook, cargo feature `verif`).
+
+use super::*;
+
+impl Worterbuch {
+    /// Checks the structural invariants of the core between two requests. Returns a description
+    /// of every violated invariant; never panics, never changes state.
+    pub fn verif_invariants(&self) -> Vec<String> {
+        let mut out = Vec::new();
+        self.store.verif_invariants(&mut out);
+
+        // every subscriber that can be notified belongs to a registered subscription (otherwise it
+        // could never be unsubscribed nor cleaned up when its session ends), and is stored exactly once
+        let mut seen = Vec::new();
+        for (id, path, pattern) in self.subscribers.verif_subscribers() {
+            if path != pattern {
+                out.push(format!(
+                    "subscribers: subscriber {id:?} stored under a path that is not its pattern"
+                ));
+            }
+            match self.subscriptions.get(&id) {
+                Some(registered) if registered == &path => {}
+                Some(_) => out.push(format!(
+                    "subscribers: subscriber {id:?} registered with a different pattern"
+                )),
+                None => out.push(format!(
+                    "subscribers: subscriber {id:?} has no subscription entry"
+                )),
+            }
+            if seen.contains(&id) {
+                out.push(format!("subscribers: subscriber {id:?} stored twice"));
+            }
+            seen.push(id);
+        }
+        let mut seen = Vec::new();
+        for (id, path) in self.store.verif_ls_subscribers() {
+            match self.ls_subscriptions.get(&id) {
+                Some(registered) if registered == &path => {}
+                Some(_) => out.push(format!(
+                    "ls subscribers: subscriber {id:?} registered with a different parent"
+                )),
+                None => out.push(format!(
+                    "ls subscribers: subscriber {id:?} has no subscription entry"
+                )),
+            }
+            if seen.contains(&id) {
+                out.push(format!("ls subscribers: subscriber {id:?} stored twice"));
+            }
+            seen.push(id);
+        }
+        for client_id in self.spub_keys.keys() {
+            if !self.clients.contains_key(client_id) && !self.clients.is_empty() {
+                // pub streams of clients that never called `connected` are legal for embedded use
+                // (no session bookkeeping), so this is only checked when sessions are tracked
+                let _ = client_id;
+            }
+        }
+        out
+    }
+
+    /// Number of (subscriptions, ls subscriptions) currently registered.
+    pub fn verif_subscription_count(&self) -> (usize, usize) {
+        (self.subscriptions.len(), self.ls_subscriptions.len())
+    }
+
+    /// (key, holder, queued clients in order) of every lock.
+    pub fn verif_locks(&self) -> Vec<(String, ClientId, Vec<ClientId>)> {
+        self.store.verif_locks()
+    }
+
+    /// Number of clients with open publish streams.
+    pub fn verif_pub_stream_clients(&self) -> usize {
+        self.spub_keys.len()
+    }
+
+    pub async fn verif_apply_grave_goods(&mut self, grave_goods: GraveGoods) {
+        self.apply_grave_goods(grave_goods).await
+    }
+
+    pub async fn verif_apply_last_wills(&mut self, last_wills: LastWill) {
+        self.apply_last_wills(last_wills).await
+    }
+
+    pub async fn verif_flush(&mut self) -> Result<(), String> {
+        self.flush().await.map_err(|e| e.to_string())
+    }
+}
